@@ -15,6 +15,7 @@ import JanetModel.Asm.OperandLemmas
 import JanetModel.Marsh.EnvBitsetLemmas
 import JanetModel.Marsh.CodeRoundtrip
 import JanetModel.Marsh.AbstractLemmas
+import JanetModel.Marsh.AbsDepthLemmas
 import JanetModel.Asm.InstrLemmas
 import JanetModel.Asm.DefLemmas
 import JanetModel.Marsh.CodeData
@@ -424,6 +425,73 @@ example : marshalHook (fun v c => marshalC 5 ⟨[.abs .nil [.byte 0] [.byte 0, .
 
 /-- a hook pair that is not well paired (the reader asks for an int where a byte was written) is not accepted -/
 example : acceptsPre chanProg [.int 0] = none := by decide
+
+
+/-! ### recursion depth along the abstract-hook path  (Marsh/AbsDepth.lean)
+
+`marshal_one` → `marshal_one_abstract` → `JanetMarshalContext.flags` → `janet_marshal_janet` → `marshal_one`: a value that a hook
+hands back to the marshaller (PEG constant, queued channel item) is visited `call + ctx + item` levels below its abstract, the
+type-name symbol `call + name` levels below; `unmarshal_one` has the same four edges with its own increments.  `Incs` holds the
+four increments of one side; the ones of the current marsh.c are regenerated (`Gen.MarshCode.mAbs…` / `uAbs…`, instantiated in
+`CodeObligations.abstract_nesting_roundtrips`). -/
+
+/-- **Whatever nests through abstract payloads and is marshalled can be unmarshalled**, at every depth: if no reader edge of the
+abstract path consumes more depth than the corresponding writer edge, then for every value (arrays and abstracts holding values,
+any shape), every writer budget `fm` (= `recursionGuard + 1 - depth`) and every reader budget `fu ≥ fm`, the reader accepts the
+bytes the writer produced, returns the same nesting and stops where the writer stopped.  (With a context initialiser that does
+not add to the local depth on the marshal side — seed C19-8: `st->flags` — the hypothesis `hi` is false, and the second
+`example` below is a value that is written and then rejected.) -/
+theorem abstract_depth_roundtrip (pm pu : AbsDepth.Incs) (hn : pu.nameTotal ≤ pm.nameTotal) (hi : pu.itemExtra ≤ pm.itemExtra)
+    (v : AbsDepth.DV) (fm fu : Nat) (h : fm ≤ fu) (bs tl : List AbsDepth.Tok) (hm : AbsDepth.marshalD pm fm v = some bs) :
+    AbsDepth.unmarshalD pu fu (bs ++ tl) = some (v, tl) :=
+  AbsDepth.roundtripD pm pu hn hi v fm fu h bs tl hm
+
+/-- the converse edge-wise condition gives the converse acceptance: bytes of a value that the reader accepts at budget `fu` are
+accepted by the writer at every budget `fm ≥ fu`, and the reader returned that value -/
+theorem abstract_depth_accept_converse (pm pu : AbsDepth.Incs) (hn : pm.nameTotal ≤ pu.nameTotal) (hi : pm.itemExtra ≤ pu.itemExtra)
+    (v : AbsDepth.DV) (fm fu : Nat) (h : fu ≤ fm) (tl : List AbsDepth.Tok) (r : AbsDepth.DV × List AbsDepth.Tok)
+    (hu : AbsDepth.unmarshalD pu fu (AbsDepth.enc v ++ tl) = some r) :
+    AbsDepth.marshalD pm fm v = some (AbsDepth.enc v) ∧ r = (v, tl) :=
+  AbsDepth.acceptD pm pu hn hi v fm fu h tl r hu
+
+/-- **Depth symmetry of the abstract path** (the a382df0-style statement): with equal increments on both sides, `marshal`
+accepts a value at depth `d` iff `unmarshal` accepts its bytes at depth `d` -/
+theorem abstract_depth_symmetric (p : AbsDepth.Incs) (v : AbsDepth.DV) (f : Nat) (tl : List AbsDepth.Tok) :
+    (AbsDepth.marshalD p f v).isSome = (AbsDepth.unmarshalD p f (AbsDepth.enc v ++ tl)).isSome :=
+  AbsDepth.symmetricD p v f tl
+
+/-- the same in the Code/Abstract model: the values a hook passes to `janet_marshal_janet` are written by `marshalC` at the
+budget of the abstract minus the writer's increments and read by `unmarshalC` at the budget minus the reader's; when the reader's
+increments are not larger, every well-paired hook round-trips (`abstract_hook_roundtrip` with the two budgets made explicit) -/
+theorem abstract_hook_roundtrip_at_depth (pm pu : AbsDepth.Incs) (hi : pu.itemExtra ≤ pm.itemExtra)
+    (T : Heap) (vf : Def → Bool) (hT : HeapCWF vf T) (fuel : Nat)
+    (prog : Prog) (pre post : List AItem) (hwp : WellPaired prog pre post)
+    (hpre : ∀ it ∈ pre, ItemWF it) (hpost : ∀ it ∈ post, ItemWF it)
+    (mk : List AItem → List AItem → CObj) (id : Nat) (ho : T.objs[id]? = some (mk pre post))
+    (c : Ct) (bs : List Nat) (c' : Ct) (tl : List Nat) (hc : c ≤ T.size)
+    (hm : marshalHook (fun v c => marshalC (fuel - pm.itemExtra) T v c) id pre post c = some (bs, c')) :
+    unmarshalHook (fun c d => unmarshalC (fuel - pu.itemExtra) vf c d) prog mk c (bs ++ tl) = some (.ref id, tl, T.slice c c') :=
+  abstract_hook_roundtrip T vf hT _ _ (by omega) prog pre post hwp hpre hpost mk id ho c bs c' tl hc hm
+
+/-- non-vacuity: with the increments of marsh.c (0, 1, 1, 1) and budget 5, two abstracts around a leaf are written … -/
+example : AbsDepth.marshalD ⟨0, 1, 1, 1⟩ 5 (AbsDepth.chainW 0 2) = some [.abs 1, .sym, .abs 1, .sym, .nil] := by decide
+/-- … three are not (the leaf would be at budget 0), and by symmetry their bytes are not read either -/
+example : AbsDepth.marshalD ⟨0, 1, 1, 1⟩ 6 (AbsDepth.chainW 0 3) = none ∧
+    (AbsDepth.unmarshalD ⟨0, 1, 1, 1⟩ 6 (AbsDepth.enc (AbsDepth.chainW 0 3))).isSome = false := by
+  have h : AbsDepth.marshalD ⟨0, 1, 1, 1⟩ 6 (AbsDepth.chainW 0 3) = none := by decide
+  refine ⟨h, ?_⟩
+  have := abstract_depth_symmetric ⟨0, 1, 1, 1⟩ (AbsDepth.chainW 0 3) 6 []
+  rw [h] at this
+  simpa using this.symm
+/-- a writer whose context does not add to the depth (`ctx = 0`; seed C19-8 restarts it altogether) against the reader of
+marsh.c: the value is written, and its bytes are rejected -/
+example : (AbsDepth.marshalD ⟨0, 1, 0, 1⟩ 6 (AbsDepth.chainW 0 3)).isSome = true ∧
+    (AbsDepth.unmarshalD ⟨0, 1, 1, 1⟩ 6 (AbsDepth.enc (AbsDepth.chainW 0 3))).isSome = false := by
+  refine ⟨by decide, ?_⟩
+  have h : AbsDepth.marshalD ⟨0, 1, 1, 1⟩ 6 (AbsDepth.chainW 0 3) = none := by decide
+  have := abstract_depth_symmetric ⟨0, 1, 1, 1⟩ (AbsDepth.chainW 0 3) 6 []
+  rw [h] at this
+  simpa using this.symm
 
 
 /-! ### asm ∘ disasm on whole instruction words and bytecode arrays  (Asm/Instr.lean)
